@@ -793,6 +793,34 @@ func propTime(args []string) string {
 	if msg := reduceRepeatable(e, beforeEnc, got, v); msg != "" {
 		return msg
 	}
+	// a clock that is kept and re-used: the same valuer objects serve a second reduction after the zone of the
+	// clock was changed; the result must be that of valuers built afresh for the new zone (round-4 seeded
+	// change C09-1: MultiValuer looked its zone up once and kept it)
+	if nowNs != nil {
+		for _, wrap := range []bool{false, true} {
+			mk := func(loc *time.Location) (influxql.Valuer, *influxql.NowValuer) {
+				nv := &influxql.NowValuer{Now: nsToTime(nowNs), Location: loc}
+				if wrap {
+					return influxql.MultiValuer(influxql.MapValuer(bindingsMap(bs)), nv), nv
+				}
+				return nv, nv
+			}
+			var first *time.Location
+			if zone != 0 {
+				first = time.FixedZone("", zone)
+			}
+			second := time.FixedZone("", zone+5*3600+1800)
+			kept, nv := mk(first)
+			_ = influxql.Reduce(e, kept)
+			nv.Location = second
+			a := influxql.Reduce(e, kept)
+			fresh, _ := mk(second)
+			b := influxql.Reduce(e, fresh)
+			if encTree(a) != encTree(b) {
+				return fmt.Sprintf("a valuer used before with another zone reduces %s to %s, a fresh one to %s", e.String(), a.String(), b.String())
+			}
+		}
+	}
 	var want string
 	switch {
 	case l.isTime && !r.isTime && b.Op == influxql.ADD:
